@@ -529,7 +529,7 @@ static void small_product_step(prog_t* P) {
 
 static void program_case(uint64_t N, int ntt, int native, unsigned prog, int len) {
   char key[96];
-  snprintf(key, sizeof key, "random-program|%s%s", ntt ? "ntt120" : "fft64", native ? "" : ",generic");
+  snprintf(key, sizeof key, "random-program|%s%s%s", ntt ? "ntt120" : "fft64", native == DISP_NATIVE ? "" : ",", native == DISP_NATIVE ? "" : disp_name[native]);
   if (!case_begin(key, "N=%" PRIu64 " program=%u len=%d", N, prog, len)) return;
   prog_t P;
   memset(&P, 0, sizeof P);
@@ -596,6 +596,10 @@ void run_C16(void) {
     const uint64_t N = WN[p % ARRAY_LEN(WN)];
     const int len = N <= 64 ? 5 + (int)(mix64(p) % 116) : (N <= 1024 ? 5 + (int)(mix64(p) % 36) : 5 + (int)(mix64(p) % 12));
     const int ntt = (p % 5) == 4;
-    program_case(N, ntt, ntt ? 1 : ((p / 5) % 3 != 2), p, len);
+    // dispatch configuration of the module: native twice as often as each of generic / avx2-only / fma-only
+    // (NTT120 exists behind the avx2 gate only: native or avx2-only)
+    static const int CFG[] = {DISP_NATIVE, DISP_GENERIC, DISP_NATIVE, DISP_AVX2_ONLY, DISP_FMA_ONLY};
+    const int cfg = ntt ? ((p / 5) % 4 == 3 ? DISP_AVX2_ONLY : DISP_NATIVE) : CFG[(p / 5) % 5];
+    program_case(N, ntt, cfg, p, len);
   }
 }
